@@ -31,6 +31,10 @@ pub struct SeqCase {
     /// configuration (its `entropy` must be `Seed`: it is the generator's PRNG seed)
     pub base: GenCase,
     pub ops: Vec<Op>,
+    /// the generator is built WITHOUT a seed (as `Generator::new(v)` and the Python bindings do by default):
+    /// `generate()` results are then legitimately random and are not compared, fuzzer-bytes calls still are
+    #[serde(default)]
+    pub unseeded: bool,
 }
 
 pub fn seq_strategy(p: &Profile, maxlen: usize) -> BoxedStrategy<SeqCase> {
@@ -41,11 +45,14 @@ pub fn seq_strategy(p: &Profile, maxlen: usize) -> BoxedStrategy<SeqCase> {
         1 => Just(Op::TakeOutput),
     ];
     let last = prop_oneof![1 => Just(Op::Generate), 1 => case::bytes_entropy().prop_map(Op::FromBytes)];
-    (case::gencase(p), any::<u64>(), proptest::collection::vec(op, 0..maxlen), last)
-        .prop_map(|(mut base, seed, mut ops, last)| {
+    (case::gencase(p), any::<u64>(), proptest::collection::vec(op, 0..maxlen), last, proptest::bool::weighted(0.25))
+        .prop_map(|(mut base, seed, mut ops, last, unseeded)| {
             base.entropy = Entropy::Seed(seed);
             ops.push(last);
-            SeqCase { base, ops }
+            if unseeded && !ops.iter().any(|o| matches!(o, Op::FromBytes(_))) {
+                ops.push(Op::FromBytes(Vec::new()));
+            }
+            SeqCase { base, ops, unseeded }
         })
         .boxed()
 }
@@ -58,8 +65,22 @@ fn entropy_of(base: &GenCase, op: &Op) -> Option<Entropy> {
     }
 }
 
+/// the generator of a sequence case (no seed if `unseeded`)
+fn seq_build(sc: &SeqCase) -> pickle_fuzzer::Generator {
+    if sc.unseeded {
+        let mut b = sc.base.clone();
+        b.entropy = Entropy::Bytes(Vec::new()); // `build` only sets a seed for Entropy::Seed
+        b.build(None)
+    } else {
+        sc.base.build(None)
+    }
+}
+
 pub fn check_c08(ctx: &Ctx, sc: &SeqCase, st: &mut Stats) -> Result<(), Fail> {
-    let mut g = sc.base.build(None);
+    let mut g = seq_build(sc);
+    if sc.unseeded {
+        st.label("unseeded generator (generate() results not compared)");
+    }
     let mut calls_since_reset = 0usize;
     let mut back_to_back = false;
     let mut calls = 0usize;
@@ -75,7 +96,12 @@ pub fn check_c08(ctx: &Ctx, sc: &SeqCase, st: &mut Stats) -> Result<(), Fail> {
             continue;
         };
         let got = call_gen(&mut g, &e);
-        let mut fresh = sc.base.build(None);
+        if sc.unseeded && matches!(op, Op::Generate) {
+            // OS-seeded: legitimately different every time; it still is part of the history
+            calls_since_reset += 1;
+            continue;
+        }
+        let mut fresh = seq_build(sc);
         let want = call_gen(&mut fresh, &e);
         calls += 1;
         calls_since_reset += 1;
@@ -165,7 +191,7 @@ fn c14_measure(sc: &SeqCase) -> (i64, i64, bool, bool, u64) {
     let mut out_digest = 0u64;
     let before = alloc::live();
     {
-        let mut g = sc.base.build(None);
+        let mut g = seq_build(sc);
         for op in &sc.ops {
             match entropy_of(&sc.base, op) {
                 None if matches!(op, Op::TakeOutput) => {
